@@ -305,7 +305,11 @@ class Parameter(_SupportsArray):
         value = f"{parameter.value:.2e}"
         if parameter.vary:
             if parameter.standard_error is not np.nan:
-                t_value = pretty_format_numerical(parameter.value / parameter.standard_error)
+                # ``np.divide`` as the standard error is a plain float (and may be 0) after loading
+                with np.errstate(divide="ignore", invalid="ignore"):
+                    t_value = pretty_format_numerical(
+                        np.divide(parameter.value, parameter.standard_error)
+                    )
                 value += f"±{parameter.standard_error:.2e}, t-value: {t_value}"
 
             if initial_parameters is not None:
